@@ -146,8 +146,14 @@ fn resolve_dir_symlink_root(src: &Path) -> anyhow::Result<PathBuf> {
 
 pub fn copy_file(src: &Path, dst: &Path) -> anyhow::Result<()> {
     if let Some(parent) = dst.parent() {
+        #[cfg(agentpack_verif)]
+        crate::verif_hooks::point("mkdir", parent)
+            .with_context(|| format!("create {}", parent.display()))?;
         std::fs::create_dir_all(parent).with_context(|| format!("create {}", parent.display()))?;
     }
+    #[cfg(agentpack_verif)]
+    crate::verif_hooks::point("copy", dst)
+        .with_context(|| format!("copy {} -> {}", src.display(), dst.display()))?;
     std::fs::copy(src, dst)
         .with_context(|| format!("copy {} -> {}", src.display(), dst.display()))?;
     Ok(())
@@ -161,9 +167,16 @@ fn write_atomic_impl(path: &Path, bytes: &[u8], fsync: bool) -> anyhow::Result<(
     let parent = path
         .parent()
         .with_context(|| format!("invalid path: {}", path.display()))?;
+    #[cfg(agentpack_verif)]
+    crate::verif_hooks::point("mkdir", parent)
+        .with_context(|| format!("create {}", parent.display()))?;
     std::fs::create_dir_all(parent).with_context(|| format!("create {}", parent.display()))?;
 
+    #[cfg(agentpack_verif)]
+    crate::verif_hooks::point("tmp_create", path).context("create temp file")?;
     let mut tmp = NamedTempFile::new_in(parent).context("create temp file")?;
+    #[cfg(agentpack_verif)]
+    crate::verif_hooks::point("tmp_write", path).context("write temp file")?;
     tmp.write_all(bytes).context("write temp file")?;
     tmp.flush().context("flush temp file")?;
 
@@ -173,6 +186,9 @@ fn write_atomic_impl(path: &Path, bytes: &[u8], fsync: bool) -> anyhow::Result<(
             .context("sync temp file (AGENTPACK_FSYNC=1)")?;
     }
 
+    #[cfg(agentpack_verif)]
+    crate::verif_hooks::point("rename", path)
+        .with_context(|| format!("persist {}", path.display()))?;
     tmp.persist(path)
         .map(|_| ())
         .map_err(|e| anyhow::anyhow!(e.error))
